@@ -26,8 +26,8 @@ type TSM struct {
 	// FailKind, if set, makes EVERY call of that kind ("readdir", "read", "write", "mkdir") fail
 	// from the FailAt-th client call on (a persistent fault).
 	FailKind string
-	calls  int
-	Fired  bool
+	calls    int
+	Fired    bool
 	// UnboundIndex: what reading "index" of an entry not yet bound gives — 0 an error, 1 empty content
 	// (as go-configfs-tsm's fake shows it), 2 "-1\n".  IndexNoNewline: a bound index reads "2" instead of "2\n".
 	UnboundIndex   int
